@@ -58,7 +58,10 @@ where
 
         if sym > 0 && prev_sym == Some(sym - 1) {
             let i = sym + 1;
-            let len = frequencies[i..].iter().position(|&g| g == 0).unwrap_or(0);
+            let len = frequencies[i..]
+                .iter()
+                .position(|&g| g == 0)
+                .unwrap_or(ALPHABET_SIZE - i);
 
             // SAFETY: `len < ALPHABET_SIZE`.
             write_u8(writer, len as u8)?;
